@@ -4,9 +4,11 @@ from .expr import E, find
 
 
 class Visit:
-    __slots__ = ("body", "be", "env", "blocks", "via", "args", "upvars", "w")
+    __slots__ = ("body", "be", "env", "blocks", "via", "args", "upvars", "w", "parent", "removed")
 
-    def __init__(self, body, be, env, blocks, via, args, upvars, w):
+    def __init__(self, body, be, env, blocks, via, args, upvars, w, parent=None, removed=frozenset()):
+        self.parent = parent    # (parent Visit, bb of the call / closure creation) or None for the root
+        self.removed = removed  # infeasible edges under env
         self.body = body
         self.be = be
         self.env = env
@@ -33,7 +35,7 @@ def explore(sem, root, env=None, max_depth=12):
     out = []
     seen = set()
 
-    def go(body, env, via, depth, args=None, upvars=None):
+    def go(body, env, via, depth, args=None, upvars=None, parent=None):
         key = (body.path, env_key(env), via[-1] if via else None)
         if key in seen or depth > max_depth:
             return
@@ -41,7 +43,7 @@ def explore(sem, root, env=None, max_depth=12):
         be = w.be(body)
         removed = sem.feasible_removed(be, env)
         blocks = be.cfg.reach([0], removed=removed)
-        vis = Visit(body, be, env, blocks, via, args, upvars, w)
+        vis = Visit(body, be, env, blocks, via, args, upvars, w, parent, frozenset(removed))
         out.append(vis)
         for bb in sorted(blocks):
             blk = body.blocks[bb]
@@ -58,7 +60,7 @@ def explore(sem, root, env=None, max_depth=12):
                         v = sem.aval(ce, env)
                         if v is not None:
                             cenv[E("upvar", (), (cb.path, n, cb.upvar_names.get(n)))] = v
-                    go(cb, cenv, via + ((body.path, s.line),), depth + 1, None, caps)
+                    go(cb, cenv, via + ((body.path, s.line),), depth + 1, None, caps, (vis, bb))
             t = blk.term
             if t.kind == "call":
                 g = w.prog.bodies.get(t.callee.path.split("::<")[0]) or w.prog.bodies.get(_strip(t.callee.path))
@@ -72,7 +74,7 @@ def explore(sem, root, env=None, max_depth=12):
                         v = sem.aval(ae, env)
                         if v is not None:
                             genv[E("param", (), (g.path, l, g.name_of(l), g.local_tys[l]))] = v
-                    go(g, genv, via + ((body.path, t.line),), depth + 1, gargs, None)
+                    go(g, genv, via + ((body.path, t.line),), depth + 1, gargs, None, (vis, bb))
 
     go(root, env or {}, (), 0)
     return out
@@ -116,3 +118,37 @@ def call_sites(sem, visits, pred):
                 if e.op == "call" and pred(e.info):
                     out.append((v, blk.idx, v.resolve(e)))
     return out
+
+
+def site_guarded(sem, vis, bb, fact_pred):
+    """A2 on a site: is block `bb` of visit `vis` (or, failing that, the call / closure
+    creation site of `vis` in one of its callers, up to the root) unreachable from the
+    function entry once the edges on which fact_pred holds are removed?
+    Returns (guarded, description of the level that guards / witness path lines)."""
+    level = vis
+    site = bb
+    chain = []
+    while level is not None:
+        be = level.be
+        pass_edges = set()
+        for blk in level.body.blocks:
+            if blk.cleanup or blk.term.kind != "switch" or blk.idx not in be.cfg.live:
+                continue
+            for succ, fl in sem.edge_facts(be, blk.idx).items():
+                if any(fact_pred(f, level.resolve) for f in fl):
+                    pass_edges.add((blk.idx, succ))
+        removed = set(level.removed) | pass_edges
+        reach = be.cfg.reach([0], removed=removed)
+        if site not in reach:
+            return True, "guarded in %s (%d pass edge(s))" % (level.body.path, len(pass_edges))
+        p = be.cfg.path(0, site, removed=removed) or []
+        lines = []
+        for b in p:
+            l = level.body.blocks[b].term.line
+            if l > 1 and (not lines or lines[-1] != l):
+                lines.append(l)
+        chain.append("%s lines %s" % (level.body.path, lines))
+        if level.parent is None:
+            break
+        level, site = level.parent
+    return False, "unguarded path: " + " <- ".join(chain)
